@@ -88,10 +88,20 @@ TruncDiv(n, d) == IF n >= 0 THEN n \div d ELSE 0 - ((0 - n) \div d)
 \* fit TLC's 32-bit integers.
 DecPlaces(d) == IF \E e \in 0..6 : (10^e) % d = 0 THEN CHOOSE e \in 0..6 : (10^e) % d = 0 /\ \A f \in 0..(e - 1) : (10^f) % d # 0
                 ELSE 0 - 1
+\* all the digits of the (finite) decimal expansion of |n/d|, as one integer, and the decimal exponent of its first digit
+FltFits(n, d) == DecPlaces(d) >= 0 /\ AbsI(n) <= 2147483647 \div ((10^DecPlaces(d)) \div d)
+FltAllDigits(n, d) == AbsI(n) * ((10^DecPlaces(d)) \div d)
+NumDigits(a) == IF a < 10 THEN 1 ELSE IF a < 100 THEN 2 ELSE IF a < 1000 THEN 3 ELSE IF a < 10000 THEN 4 ELSE IF a < 100000 THEN 5
+                ELSE IF a < 1000000 THEN 6 ELSE IF a < 10000000 THEN 7 ELSE IF a < 100000000 THEN 8 ELSE IF a < 1000000000 THEN 9 ELSE 10
+DecExp(n, d) == NumDigits(FltAllDigits(n, d)) - 1 - DecPlaces(d)
+\* Go's %v: plain notation while the decimal exponent is in -4..5, exponent notation (shortest digits) outside
 FltPrintable(n, d) ==
-  /\ DecPlaces(d) >= 0
+  /\ FltFits(n, d)
   /\ AbsI(n) \div d < 1000000
-  /\ AbsI(n) <= 2147483647 \div ((10^DecPlaces(d)) \div d)
+  /\ (n = 0 \/ DecExp(n, d) >= 0 - 4)
+FltExpPrintable(n, d) ==
+  /\ FltFits(n, d) /\ n # 0
+  /\ (DecExp(n, d) < 0 - 4 \/ DecExp(n, d) >= 6)
 RECURSIVE PadZeros(_, _)
 PadZeros(s, w) == IF Len(s) >= w THEN s ELSE PadZeros(<<48>> \o s, w)
 FltText(n, d) ==
@@ -101,6 +111,17 @@ FltText(n, d) ==
            ip == a \div (10^e)
            fr == a % (10^e)
        IN  (IF n < 0 THEN <<45>> ELSE <<>>) \o NatDigits(ip) \o <<46>> \o PadZeros(NatDigits(fr), e)
+
+\* exponent notation: d[.ddd]e(+|-)XX - the digits of the finite expansion without trailing zeros (a decimal of at
+\* most 15 digits is the shortest that reads back as the same float), at least two exponent digits
+RECURSIVE StripZeros(_)
+StripZeros(ds) == IF Len(ds) > 1 /\ ds[Len(ds)] = 48 THEN StripZeros(SubSeq(ds, 1, Len(ds) - 1)) ELSE ds
+FltExpText(n, d) ==
+  LET m == StripZeros(NatDigits(FltAllDigits(n, d)))
+      x == DecExp(n, d)
+      xs == NatDigits(AbsI(x))
+  IN  (IF n < 0 THEN <<45>> ELSE <<>>) \o <<m[1]>> \o (IF Len(m) > 1 THEN <<46>> \o SubSeq(m, 2, Len(m)) ELSE <<>>)
+      \o <<101, IF x < 0 THEN 45 ELSE 43>> \o (IF Len(xs) < 2 THEN <<48>> \o xs ELSE xs)
 
 \* ------------------------------------------------------------- truthiness
 Truthy(v) == ~(v.k = "nil" \/ (v.k = "bool" /\ ~v.v))
@@ -226,6 +247,7 @@ ToText(v) ==
     [] v.k = "int" -> [ok |-> TRUE, s |-> IntText(v.v)]
     [] v.k = "big" -> [ok |-> TRUE, s |-> (IF v.neg THEN <<45>> ELSE <<>>) \o v.digits]
     [] v.k = "flt" -> IF FltPrintable(v.n, v.d) THEN [ok |-> TRUE, s |-> FltText(v.n, v.d)]
+                      ELSE IF FltExpPrintable(v.n, v.d) THEN [ok |-> TRUE, s |-> FltExpText(v.n, v.d)]
                       ELSE [ok |-> FALSE, s |-> <<>>]
     [] v.k = "str" -> [ok |-> TRUE, s |-> v.v]
     [] v.k = "arr" -> LET ts == [i \in 1..Len(v.v) |-> ToText(v.v[i])]
